@@ -10,7 +10,27 @@ ASSUMPTIONS = ["sizes stay below 2^32 (ELF32) / 2^61 (ELF64): hypothesis of drun
 EXHAUSTIVE = {"quick": False, "thorough": False}
 KEEP_PREFIX = 4
 
+
+def kf_c07_nonresident(case, impl):
+    return False
+
 SEC_TYPES = [1, 1, 1, 3, 7, 2, 9, 0x70000001]
+
+
+def mk_loaded_case(cid, rng, img_hex, sec, init, lazy, touch, ops):
+    """the same operations on section [sec] (initial contents [init]) of a loaded image"""
+    lines = ["ctor plain", "load %s %d %s" % ("file" if lazy else "str", lazy, img_hex), "#loaded %d %s" % (sec, hx(init))]
+    if touch:
+        lines.append("getdata %d" % sec)
+    for o in ops:
+        if o[0] == "set":
+            lines.append("dset %d %s" % (sec, hx(o[1])))
+        elif o[0] == "app":
+            lines.append("dapp %d %s" % (sec, hx(o[1])))
+        else:
+            lines.append("dins %d %d %s" % (sec, o[1], hx(o[2])))
+        lines.append("getdata %d" % sec)
+    return Case(cid, lines, meta_from_lines(lines))
 
 
 def mk_case(cid, cfg, stype, ops):
@@ -29,9 +49,13 @@ def mk_case(cid, cfg, stype, ops):
 def meta_from_lines(lines):
     stype = None
     ops = []
+    init = b""
     for l in lines:
         t = l.split()
-        if t[0] == "secset" and t[2] == "type":
+        if t[0] == "#loaded":
+            stype = 1
+            init = bytes.fromhex(t[2]) if t[2] != "-" else b""
+        elif t[0] == "secset" and t[2] == "type":
             stype = int(t[3], 0)
         elif t[0] == "dset":
             ops.append(("set", bytes.fromhex(t[2]) if t[2] != "-" else b""))
@@ -41,12 +65,12 @@ def meta_from_lines(lines):
             ops.append(("ins", int(t[2], 0), bytes.fromhex(t[3]) if t[3] != "-" else b""))
         elif t[0] == "getdata":
             ops.append(("get",))
-    return {"stype": stype, "ops": ops}
+    return {"stype": stype, "ops": ops, "init": init}
 
 
 def spec_replay(meta):
     """The byte-string specification; yields the expected content at each 'get'."""
-    content = b""
+    content = meta.get("init", b"")
     out = []
     nobits = meta["stype"] == 8
     for o in meta["ops"]:
@@ -137,6 +161,17 @@ def generate(rng, tier):
         stype = 8 if i % 10 == 9 else rng.choice(SEC_TYPES)
         ops = rand_ops(rng, rng.randint(1, 12), 300)
         cases.append(mk_case("r%d" % i, cfg, stype, ops))
+    # sections of loaded images: eager, lazy with the data already requested, lazy and not yet requested
+    import elfimg
+    for i in range(90 if tier == "quick" else 900):
+        cfg = CFGS[i % 4]
+        im, b = elfimg.rich_image(rng, cfg[0], cfg[1])
+        cand = [k for k, s_ in enumerate(im.sections) if s_["data"] is not None and s_["type"] != 0]
+        sec = rng.choice(cand)
+        mode = i % 3
+        ops = rand_ops(rng, rng.randint(1, 8), 120)
+        # track the size for positions relative to the loaded contents
+        cases.append(mk_loaded_case("l%d" % i, rng, hx(b), sec, im.sections[sec]["data"], 1 if mode else 0, mode == 1, ops))
     # small-scope enumeration: all sequences up to length L over a small alphabet
     alpha = [b"", b"A", b"BCD"]
     L = 3 if tier == "quick" else 4
